@@ -50,4 +50,3 @@ def apply(F):
     # spec fns only if it mentions them statically (otherwise the definitions may be emitted too late)
     F.contract([r'impl<D> LabeledExpand for hkdf::Hkdf<D, SimpleHmac<D>>'], r'fn labeled_expand\b', ret='r', clauses=LX.rstrip() + ',\n')
     F.wrap([], r'pub trait LabeledExpand\b', upto_rx=r'impl<D> LabeledExpand for hkdf::Hkdf<D, SimpleHmac<D>>')
-    F.wrap_simple_consts()
